@@ -103,6 +103,11 @@ def run_kernel_check(pid, tier, replay, level_text_extra=""):
                     runs.append((vn, ex, path, desc))
         except ImportError:
             v.notes.append("kernel model checking not available in this revision")
+        # 1b. regression scenarios (programs that once exposed a defect)
+        scen = os.path.join(vlib.ROOT, "scenarios", "kernel_regressions.txt")
+        if os.path.exists(scen):
+            for vn, ex in variants:
+                runs.append((vn, ex, scen, "regression scenarios"))
         # 2. seeded random programs
         n = 250 if tier == "quick" else 2500
         for pf in PROFILES_FOR[pid]:
